@@ -168,3 +168,41 @@ pub fn reclaim_case(id: usize, n: usize) -> String {
     // `base` was taken before the application thread existed; `peak`/`after` include it
     format!("srv id={} kind=reclaim n={} ok={} pre={} base={} peak={} after={}", id, n, ok, pre, base, peak, after - 1)
 }
+
+/// drop the server while one request is handed out and a second, pipelined one is still queued:
+/// the drop must return, the listener must close, the handed-out request must still be answerable
+pub fn drop_queued_case(id: usize) -> String {
+    use std::sync::mpsc;
+    let server = Server::http("127.0.0.1:0").unwrap();
+    let ip = server.server_addr().to_ip().unwrap();
+    let mut c = TcpStream::connect(ip).unwrap();
+    c.write_all(b"GET /held HTTP/1.1\r\nHost: x\r\n\r\nGET /queued HTTP/1.1\r\nHost: x\r\n\r\n").unwrap();
+    let rq = server.recv_timeout(Duration::from_secs(2)).unwrap().unwrap();
+    // give the connection thread time to queue the second request
+    std::thread::sleep(Duration::from_millis(60));
+    let (tx, rx) = mpsc::channel();
+    let t0 = Instant::now();
+    // the drop runs on its own thread so that a drop that never returns is observed, not suffered
+    std::thread::spawn(move || {
+        drop(server);
+        let _ = tx.send(());
+    });
+    let drop_returned = rx.recv_timeout(Duration::from_millis(2000)).is_ok();
+    let drop_ms = t0.elapsed().as_millis();
+    let mut refused_ms: i64 = -1;
+    let t1 = Instant::now();
+    while t1.elapsed() < Duration::from_millis(1500) {
+        match TcpStream::connect_timeout(&ip, Duration::from_millis(200)) {
+            Err(_) => {
+                refused_ms = t1.elapsed().as_millis() as i64;
+                break;
+            }
+            Ok(s) => drop(s),
+        }
+        std::thread::sleep(Duration::from_millis(5));
+    }
+    let _ = rq.respond(Response::from_string("done"));
+    let out = read_response(&mut c, 1500);
+    let answered = out.starts_with(b"HTTP/1.1 200") && out.windows(4).any(|w| w == b"done");
+    format!("srv id={} kind=drop-queued refused_ms={} answered={} path_removed=na drop_returned={} drop_ms={}", id, refused_ms, if answered { 1 } else { 0 }, if drop_returned { 1 } else { 0 }, drop_ms)
+}
